@@ -123,7 +123,7 @@ Definition entity_mismatch_b (cfg : config) (e0 : entity) (p : payload) : bool :
   match e0, p with
   | _, PMalformed => true
   | EEngine _ _ _ hs, PEngine _ pr se => evlist_bad cfg hs pr || evlist_bad cfg hs se
-  | EComp h _ _ _, PComp h' _ _ _ => negb (str_eqb h h')
+  | EComp h _ _ _ _ _, PComp h' _ _ _ _ _ => negb (str_eqb h h')
   | EEvComp h _ _, PEvComp h' _ _ => negb (str_eqb h h')
   | EPort ic _ oc _, PPort bi bo =>
       negb (Z.eqb (bc_cap bi) ic) || negb (Z.eqb (bc_cap bo) oc) ||
@@ -201,7 +201,7 @@ Definition compat_entity_b (cfg : config) (e e0 : entity) : bool :=
   match e, e0 with
   | EEngine _ q1 q2 _, EEngine _ [] [] hs => evs_ok cfg hs q1 && evs_ok cfg hs q2
   | EIdGen _, EIdGen _ => true
-  | EComp h _ _ _, EComp h0 _ _ _ => str_eqb h0 h
+  | EComp h _ _ _ _ _, EComp h0 _ _ _ _ _ => str_eqb h0 h
   | EEvComp h _ _, EEvComp h0 _ _ => str_eqb h0 h
   | EPort ic ie oc oe, EPort ic0 _ oc0 _ =>
       Z.eqb ic ic0 && Z.eqb oc oc0 && msgs_ok cfg ic ie && msgs_ok cfg oc oe
